@@ -19,6 +19,18 @@ MUTATIONS = [
 ]
 
 
+# behaviour-preserving rewrites (--benign): none of them may be reported
+EQUIV = [
+    (r'\b(\w+(?:\.\w+)*) == (\w+(?:\.\w+)*)\b', r'\2 == \1'),
+    (r'\b(\w+(?:\.\w+)*) != nil\b', r'nil != \1'),
+    (r'\b(\w+)\+\+', r'\1 += 1'),
+    (r'\b(\w+)--', r'\1 -= 1'),
+    (r'\blen\((\w+)\) == 0\b', r'0 == len(\1)'),
+    (r'\b(\w+) > 0\b', r'0 < \1'),
+    (r'\b(\w+) < (\w+)\b', r'\2 > \1'),
+]
+
+
 def contracted():
     """(key, props, file, package-dir) for every function-level block of the mirror contracts"""
     out = {}
@@ -74,6 +86,7 @@ def main():
     ap.add_argument('--props', default='')
     ap.add_argument('--out', default='/verif/out/mutation_audit.jsonl')
     ap.add_argument('--seed', type=int, default=1)
+    ap.add_argument('--benign', action='store_true', help='apply behaviour-preserving rewrites instead: none may be reported')
     a = ap.parse_args()
     random.seed(a.seed)
     want = set(p for p in a.props.split(',') if p)
@@ -81,7 +94,7 @@ def main():
     repo = os.path.join(scratch, 'repo')
     shutil.copytree('/repo', repo, ignore=shutil.ignore_patterns('.git'))
     out = open(a.out, 'a')
-    stats = {'mutants': 0, 'killed': 0, 'survived': 0, 'nocompile': 0}
+    stats = {'mutants': 0, 'killed': 0, 'survived': 0, 'nocompile': 0, 'mode': 'benign (killed = FALSE ALARM)' if a.benign else 'mutants'}
     try:
         funcs = contracted()
         for key in sorted(funcs):
@@ -97,7 +110,7 @@ def main():
             cands = []
             for ln in range(lo, hi + 1):
                 code = lines[ln].split('//')[0]
-                for pat, rep in MUTATIONS:
+                for pat, rep in (EQUIV if a.benign else MUTATIONS):
                     for mm in re.finditer(pat, code):
                         new = code[:mm.start()] + re.sub(pat, rep, code[mm.start():], count=1)
                         if new != code:
